@@ -135,7 +135,7 @@ def _(u):
     same_tensor(u, "reset.mask-consistent", out["action_mask"], (B, N + 1), lambda bb, jj: msn.at(bb, jj), tags=("C01", "C05"))
 
 
-@unit("sdvrp.rowlocal.step", file=F, func="SDVRPEnv._step", props=("C04",))
+@unit("sdvrp.rowlocal.step", file=F, func="SDVRPEnv._step", props=("C04", "C14"))
 def _(u):
     N = u.dim("N")
     env = u.obj(F, "SDVRPEnv")
@@ -152,7 +152,7 @@ def _(u):
     rowlocal(u, "step", mk_in, lambda u, td: u.run(F, "SDVRPEnv._step", td, selfobj=env), requires=req)
 
 
-@unit("sdvrp.rowlocal.mask", file=F, func="SDVRPEnv.get_action_mask", props=("C04",))
+@unit("sdvrp.rowlocal.mask", file=F, func="SDVRPEnv.get_action_mask", props=("C04", "C14"))
 def _(u):
     N = u.dim("N")
     rowlocal(u, "mask", lambda u, B: state(u, B, N), lambda u, td: u.run(F, "SDVRPEnv.get_action_mask", td),
